@@ -178,6 +178,41 @@ func generatePosts() {
 		}
 	}
 
+	// ---- the tag is somewhere, but not at the very start: nothing may be cut --------------------------------------
+	tagRoles := append(authors, [2]string{"Kahou2", "EditExp"}, [2]string{"CodingMan", "Note"}, [2]string{"CodingMan", pctBoard})
+	for _, ab := range tagRoles {
+		reset()
+		for _, lead := range []string{" ", "  ", "   ", "\t", "\x00", "\xa1\x40", "[", "x", " [", "Re: ", "\x1b[m"} {
+			for _, tail := range []string{"", " x", strings.Repeat("z", 60)} {
+				q := newReq(ab[0], ab[1])
+				q.title = append(append([]byte(lead), ptttype.TN_ANNOUNCE_BIG5...), tail...)
+				post(q)
+			}
+		}
+		for _, cls := range []string{" ", "  \xa4\xbd", "\xa4\xbd\xa7\x69"} {
+			q := newReq(ab[0], ab[1])
+			q.class = []byte(cls)
+			q.title = append(append([]byte("  "), ptttype.TN_ANNOUNCE_BIG5...), " y"...)
+			post(q)
+		}
+	}
+
+	// ---- time zone through the real configuration path ----------------------------------------------------------
+	for _, z := range []string{"UTC", "Pacific/Honolulu", "Pacific/Kiritimati", "Asia/Taipei", "America/New_York"} {
+		reset()
+		q0 := newReq("CodingMan", "WhoAmI")
+		q0.title = []byte("default zone")
+		post(q0)
+		do("timezone " + hx.Hex([]byte(z)))
+		for i, ub := range [][2]string{{"CodingMan", "WhoAmI"}, {"test0", "EditExp"}, {"SYSOP", "Note"}} {
+			q := newReq(ub[0], ub[1])
+			q.title = []byte("in " + z + " " + string(rune('a'+i)))
+			q.lines = [][]byte{[]byte("x")}
+			post(q)
+		}
+	}
+	reset()
+
 	// ---- cold totals: records on disk, nothing counted yet (as after ReloadBCache) ----------------------------------
 	for k := 1; k <= 3; k++ {
 		two := append([]byte{}, fixtureDir["WhoAmI"]...)
@@ -427,7 +462,7 @@ func generatePosts() {
 		"post 57686f416d49 57686f416d49 436f64696e674d616e00000000 - 312e322e332e34 - - 6869 6g",
 		"post 57686f416d49 57686f416d49 436f64696e674d616e00 - 312e322e332e34 - - 6869 .",
 		"load", "load 41 zz", "postas 5a 57686f416d49 57686f416d49 - 312e322e332e34 - - 6869 .",
-		"post 57686f416d50 57686f416d49 436f64696e674d616e00000000 - 312e322e332e34 - - 6869 .", "consts 1", "config 0101", "config 01x10", "config"} {
+		"post 57686f416d50 57686f416d49 436f64696e674d616e00000000 - 312e322e332e34 - - 6869 .", "consts 1", "timezone", "timezone zz", "config 0101", "config 01x10", "config"} {
 		do(l)
 	}
 }
